@@ -7,7 +7,12 @@
    Python's evaluation order and operators are kept: [npowop] is the **
    operator (also for an int exponent: CPython converts it to float),
    [npow] is math.pow, math.comb / math.factorial are exact integers that are
-   converted to float by the mixed int * float / float / int operation.
+   converted to float by the mixed int * float / float / int operation, with
+   CPython's range check ([ofZc]: OverflowError).  Where the direct formula of
+   a probability (binomial, negative binomial, Poisson) or of the Erlang
+   density raises OverflowError, the repaired code evaluates in log space
+   (proposed_fixes/C15-pmf-overflow.patch, C15-erlang-density-overflow.patch):
+   [on_exn EOverflow direct fallback].
 
    [tv] ("triangular variant") = true is the pinned DistTriangular density,
    which divides by (mode - lo) = 0 at x = lo = mode; false is the repaired one
@@ -94,9 +99,18 @@ Definition pdf (tv : bool) (d : dist) (x : F) : res F :=
       Val (if eqb N x (as_float N c) then one else zero)
   | DErlang _ k lambda _ =>
       if zero <=. x then
-        e <-- nexp N ((-. lambda) *. x) ;;
-        p <-- npowop N (lambda *. x) (ofZ N (k - 1)) ;;
-        (lambda *. e *. p) /. ofZ N (zfact (Z.to_nat (k - 1)))
+        on_exn EOverflow
+          (e <-- nexp N ((-. lambda) *. x) ;;
+           p <-- npowop N (lambda *. x) (ofZ N (k - 1)) ;;
+           c <-- ofZc N (zfact (Z.to_nat (k - 1))) ;;
+           (lambda *. e *. p) /. c)
+          (* (lambda x) ** (k - 1) or (k - 1)! beyond the float range: log space *)
+          (if eqb N (lambda *. x) zero then Val zero
+           else
+             l1 <-- nlog N lambda ;;
+             l2 <-- nlog N (lambda *. x) ;;
+             lg <-- nlgamma N (ofZ N k) ;;
+             nexp N (((l1 -. (lambda *. x)) +. (ofZ N (k - 1) *. l2)) -. lg))
       else Val zero
   | DExponential mean =>
       if zero <=. x then
@@ -164,9 +178,20 @@ Definition prob (d : dist) (k : Z) : res F :=
       Val (if (k =? 0)%Z then one -. p else if (k =? 1)%Z then p else zero)
   | DBinomial n p =>
       if (0 <=? k)%Z && (k <=? n)%Z then
-        p1 <-- npowop N p (ofZ N k) ;;
-        p2 <-- npowop N (one -. p) (ofZ N (n - k)) ;;
-        Val (ofZ N (zcomb n k) *. p1 *. p2)
+        on_exn EOverflow
+          (p1 <-- npowop N p (ofZ N k) ;;
+           c <-- ofZc N (zcomb n k) ;;
+           p2 <-- npowop N (one -. p) (ofZ N (n - k)) ;;
+           Val (c *. p1 *. p2))
+          (* the binomial coefficient is beyond the float range (0 < k < n): log space *)
+          (if negb ((zero <. p) && (p <. one)) then Val zero
+           else
+             g1 <-- nlgamma N (ofZ N (n + 1)) ;;
+             g2 <-- nlgamma N (ofZ N (k + 1)) ;;
+             g3 <-- nlgamma N (ofZ N (n - k + 1)) ;;
+             l1 <-- nlog N p ;;
+             l2 <-- nlog N (one -. p) ;;
+             nexp N ((((g1 -. g2) -. g3) +. (ofZ N k *. l1)) +. (ofZ N (n - k) *. l2)))
       else Val zero
   | DDiscreteUniform lo hi =>
       if (lo <=? k)%Z && (k <=? hi)%Z then one /. (ofZ N (hi - lo) +. one) else Val zero
@@ -177,15 +202,29 @@ Definition prob (d : dist) (k : Z) : res F :=
       else Val zero
   | DNegBinomial s p _ =>
       if (0 <=? k)%Z then
-        p1 <-- npowop N p (ofZ N s) ;;
-        p2 <-- npowop N (one -. p) (ofZ N k) ;;
-        Val (ofZ N (zcomb (s + k - 1) k) *. p1 *. p2)
+        on_exn EOverflow
+          (p1 <-- npowop N p (ofZ N s) ;;
+           c <-- ofZc N (zcomb (s + k - 1) k) ;;
+           p2 <-- npowop N (one -. p) (ofZ N k) ;;
+           Val (c *. p1 *. p2))
+          (g1 <-- nlgamma N (ofZ N (s + k)) ;;
+           g2 <-- nlgamma N (ofZ N (k + 1)) ;;
+           g3 <-- nlgamma N (ofZ N s) ;;
+           l1 <-- nlog N p ;;
+           l2 <-- nlog N (one -. p) ;;
+           nexp N ((((g1 -. g2) -. g3) +. (ofZ N s *. l1)) +. (ofZ N k *. l2)))
       else Val zero
   | DPoisson rate _ =>
       if (0 <=? k)%Z then
-        e <-- nexp N (-. rate) ;;
-        pw <-- npowop N rate (ofZ N k) ;;
-        (e *. pw) /. ofZ N (zfact (Z.to_nat k))
+        on_exn EOverflow
+          (e <-- nexp N (-. rate) ;;
+           pw <-- npowop N rate (ofZ N k) ;;
+           c <-- ofZc N (zfact (Z.to_nat k)) ;;
+           (e *. pw) /. c)
+          (* rate ** k or k! beyond the float range: log space *)
+          (l <-- nlog N rate ;;
+           lg <-- nlgamma N (ofZ N (k + 1)) ;;
+           nexp N (((ofZ N k *. l) -. rate) -. lg))
       else Val zero
   | _ => Err Unmodelled
   end.
